@@ -536,6 +536,7 @@ class C09(Prop):
             prev = {}
             prev_ids = {}
             all_enforced = True
+            opened = None         # facts of a refused loads that left a header < 1.1 on an object that was at >= 1.1 (F49), while they hold
             for k, (o, st) in enumerate(zip(a["ops"], real_out["steps"])):
                 def docver(d):
                     h = d.get("header") if isinstance(d, dict) else None
@@ -552,6 +553,17 @@ class C09(Prop):
                     collide = [r["path"] for r in recs(prev) if F.identity7(r) == F.identity7(new) and r["checksums"] != new["checksums"]]
                     arch_ok = o[2] in t["all_arches"] and o[2] not in ("src", "nosrc")
                     ctx["colliding_with"] = collide
+                    if opened is not None and st["version_before"] == opened["version_left"] and arch_ok and collide and st["res"] == "ok":
+                        # C09 quantifies over "whatever sequence of add calls or loaded file produced the manifest": the manifest was of
+                        # format >= 1.1 (every add scanned), the caller did nothing but catch the exception of a refused loads, and now a
+                        # colliding image is filed without a scan
+                        other = [r for r in recs(prev) if F.identity7(r) == F.identity7(new) and r["checksums"] != new["checksums"]][0]
+                        return {"kind": "gate-opened-by-failed-load",
+                                "observed": dict(ctx, failed_load=opened,
+                                                 colliding_pair=[{"path": other["path"], "identity": list(F.identity7(other)), "checksums": other["checksums"]},
+                                                                 {"path": new["path"], "identity": list(F.identity7(new)), "checksums": new["checksums"]}]),
+                                "required": "ValueError: the manifest was at format %s before the refused loads; a refused loads must not switch the "
+                                            "uniqueness scan of add off" % opened["previous_version"]}
                     vb = st["version_before"]
                     header_valid = isinstance(vb, str) and re.match(r"^\d+\.\d+$", vb) is not None
                     if arch_ok and not header_valid:
@@ -593,7 +605,11 @@ class C09(Prop):
                     if st["cells"] != prev:
                         return {"kind": "cells-changed", "observed": ctx, "required": "%s does not touch the images" % o[0]}
                     step_enforces = False
+                    if o[0] in ("dumps", "set_version"):
+                        opened = None
                 else:
+                    opened_before = opened
+                    opened = None
                     # loads, returned or raised: the images are filed under the DOCUMENT's header (assigned first).  Whatever the
                     # outcome nothing present is lost and, under a document header >= 1.1, no new colliding pair appears - also in
                     # the partial content a refused loads leaves behind
@@ -610,6 +626,14 @@ class C09(Prop):
                         if st["version"] != want_ver:
                             return {"kind": "header-after-failed-load", "observed": dict(ctx, header_required=want_ver),
                                     "required": "the document's header.version when it has one (assigned first, validated or not), else the previous header"}
+                        bp = F.version_pair(st["version_before"]) if isinstance(st["version_before"], str) and re.match(r"^\d+\.\d+$", st["version_before"]) else None
+                        lp = F.version_pair(st["version"]) if isinstance(st["version"], str) and re.match(r"^\d+\.\d+$", st["version"]) else None
+                        if lp is not None and lp < (1, 1):
+                            if bp is not None and bp >= (1, 1):
+                                opened = {"step": k, "previous_version": st["version_before"], "previous_pair": list(bp), "version_left": st["version"],
+                                          "left_pair": list(lp), "document_version": dv, "raised": st["res"]["err"]}
+                            elif opened_before is not None and st["version_before"] == opened_before["version_left"]:
+                                opened = dict(opened_before, version_left=st["version"], left_pair=list(lp), document_version=dv)   # a second refused loads on top
                         if vp is None and st["cells"] != prev:
                             return {"kind": "images-filed-under-unreadable-header", "observed": ctx, "required": "no image filed when the header is refused"}
                 if step_enforces:
